@@ -350,6 +350,10 @@ func (s *wstmt) wgsl(ind int) string {
 	p := indent(ind)
 	switch s.k {
 	case "let", "const":
+		if s.infer && s.e.k == "addr" && (wrender == nil || wrender.rng.Float64() < 0.7) {
+			// pointer binding in its plain spelling `let p = &place;` (the parenthesised one is a neutral variant)
+			return fmt.Sprintf("%s%s %s = &%s;\n", p, s.k, s.name, s.e.args[0].wgsl())
+		}
 		if s.infer {
 			return fmt.Sprintf("%s%s %s = %s;\n", p, s.k, s.name, s.e.wgsl())
 		}
@@ -694,6 +698,7 @@ type wgenOpts struct {
 	constInit  bool // private globals initialised by a named module constant or a negated literal (C04/C05 findings)
 	noValIdx   bool // no dynamic index into a by-value vector (let / parameter) (C04 finding: MSL RZSW ternary without parentheses)
 	fwdNest    bool // a continue inside a regular switch nested in a single-clause switch inside a loop (continue forwarding)
+	ptrLet     bool // `let p = &place;` bindings, read and written through `*p`
 	contCall   bool // a helper that is the only user of a private global, called only from a loop's continuing block / for-update
 }
 
@@ -1414,6 +1419,11 @@ func (g *wgen) storeOutExpr(t *wty, e *wexpr) *wstmt {
 
 func (g *wgen) stmt(depth int) *wstmt {
 	g.budget--
+	if g.o.ptrLet && !g.inCont && g.c.chance(0.08) {
+		if s := g.ptrLetStmt(); s != nil {
+			return s
+		}
+	}
 	r := g.c.rng.Intn(100)
 	switch {
 	case r < 18:
@@ -1749,6 +1759,31 @@ func (g *wgen) switchStmt(depth int) *wstmt {
 	return &wstmt{k: "switch", e: sel, cases: cases}
 }
 
+// ptrLetStmt: `let llN = &place;` for a mutable function-space place (whole local, array element, struct field); the
+// binding is then used like a pointer parameter: `(*llN)` in expressions and on the left of assignments.
+func (g *wgen) ptrLetStmt() *wstmt {
+	vs := g.visible(func(v wscopeVar) bool { return v.mutable && !v.ptr && !v.locked && !v.global })
+	if len(vs) == 0 {
+		return nil
+	}
+	v := vs[g.c.rng.Intn(len(vs))]
+	t := v.ty
+	switch {
+	case t.k == "arr" && g.c.chance(0.6):
+		t = t.elem
+	case t.k == "struct" && len(t.flds) > 0 && g.c.chance(0.6):
+		t = t.flds[g.c.rng.Intn(len(t.flds))].ty
+	}
+	place := g.ptrArg(t, map[string]bool{})
+	if place == nil {
+		return nil
+	}
+	name := g.fresh("ll")
+	g.declare(wscopeVar{name: name, ty: t, ptr: true, mutable: true})
+	g.f("ptr-let")
+	return &wstmt{k: "let", name: name, ty: t, e: place, infer: true}
+}
+
 func isJump(s *wstmt) bool { return s.k == "break" || s.k == "continue" || s.k == "return" }
 
 func (g *wgen) loopStmt(depth int) *wstmt {
@@ -2018,7 +2053,7 @@ func hasNegLit(e *wexpr) bool {
 }
 
 func defaultGenOpts(c *ctx) wgenOpts {
-	return wgenOpts{shadowUse: c.chance(0.1), swBreak: c.chance(0.3), absU: c.chance(0.1), negInit: c.chance(0.1), vecInit: c.chance(0.1), rawShift: c.chance(0.1), clz: c.chance(0.1), privInit: c.chance(0.3), contCall: c.chance(0.1), maxStmts: 6 + c.rng.Intn(14), maxDepth: 1 + c.rng.Intn(3), floats: c.chance(0.5), helpers: c.rng.Intn(4), structs: c.chance(0.5)}
+	return wgenOpts{shadowUse: c.chance(0.1), swBreak: c.chance(0.3), absU: c.chance(0.1), negInit: c.chance(0.1), vecInit: c.chance(0.1), rawShift: c.chance(0.1), clz: c.chance(0.1), privInit: c.chance(0.3), contCall: c.chance(0.1), ptrLet: c.chance(0.35), maxStmts: 6 + c.rng.Intn(14), maxDepth: 1 + c.rng.Intn(3), floats: c.chance(0.5), helpers: c.rng.Intn(4), structs: c.chance(0.5)}
 }
 
 
